@@ -4,7 +4,7 @@
        mk_singleton_class), conditional on the Section Hypotheses listed at the end of the file. *)
 From SE Require Import Slots.SlotMapFacts Group.GroupSound Lang.LangFacts Lang.ShapeFacts Lang.RenameFacts
   EGraph.Model EGraph.ModelFacts EGraph.ModelMachine EGraph.UnionFindFacts EGraph.InvariantFacts
-  EGraph.UnionInvariantFacts EGraph.AddCoversFacts EGraph.MonotoneFacts EGraph.NodePass EGraph.SoundFacts EGraph.SoundSyn EGraph.SoundNode.
+  EGraph.UnionInvariantFacts EGraph.AddCoversFacts EGraph.MonotoneFacts EGraph.SoundFacts EGraph.SoundUnion EGraph.NodePass EGraph.SoundSyn EGraph.SoundNode.
 From SE Require Import Sem.Deriv Sem.DerivFacts Sem.AlgebraFacts Sem.EgMachine Explain.CheckerFacts.
 Require Import ZArith Lia ZifyBool ZifyN ZifyNat.
 Ltac Zify.zify_post_hook ::= Z.div_mod_to_equations.
@@ -506,10 +506,79 @@ Qed.
 (* 6. soundness of the allocation                                          *)
 (* ====================================================================== *)
 
+(* the structural invariant mod4_ok (SoundUnion.v) at the states of the walk up to the rebuild inside
+   mk_singleton_class (SoundUnion.p4_mk_singleton / p4_add_internal prove it for the final states only) *)
+Lemma m4_refresh_ctr : forall n s r c1, mod4_ok s -> refresh_private n (ectr s) = (r, c1) -> mod4_ok (set_ctr s c1).
+Proof.
+  intros n s r c1 M RP. pose proof (refresh_private_step n (ectr s)) as St. rewrite RP in St. cbn [snd] in St.
+  apply (m4_frame s _); [| | | |exact M].
+  - cbn [Model.ctr set_ctr]. rewrite (ctr_step_mod _ _ St). apply M.
+  - apply classes_synsame. reflexivity.
+  - apply nsame_nodes_same. apply nsame_ctr.
+  - intros i e He. left. exact He.
+Qed.
+
+Lemma m4_singleton_pre : forall en s f2o c2 synf i s3 sh bij s4 s5, mod4_ok s ->
+  bijection_from_fresh_to (slots en) (ectr s) = (f2o, c2) ->
+  apply_slotmap_fresh false (inv f2o) en c2 = (synf, c2) ->
+  alloc_eclass (values (inv f2o)) synf (set_ctr (set_ctr s c2) c2) = Ok (i, s3) ->
+  wshape synf = Ok (sh, bij) ->
+  raw_add_to_class i (sh, bij) i s3 = Ok (tt, s4) ->
+  pending_insert sh true s4 = Ok (tt, s5) -> mod4_ok s5.
+Proof.
+  intros en s f2o c2 synf i s3 sh bij s4 s5 M BF ASF H3 Ht H4 H5.
+  assert (M1 : mod4_ok (set_ctr s c2)).
+  { apply (p4_with_ctr _ _ (bijection_from_fresh_to_step (slots en)) s f2o (set_ctr s c2)); [|exact M].
+    unfold with_ctr. rewrite BF. reflexivity. }
+  assert (M2 : mod4_ok (set_ctr (set_ctr s c2) c2)).
+  { apply (p4_with_ctr _ _ (apply_slotmap_fresh_step false (inv f2o) en) (set_ctr s c2) synf (set_ctr (set_ctr s c2) c2)); [|exact M1].
+    unfold with_ctr. cbn [Model.ctr set_ctr]. rewrite ASF. reflexivity. }
+  destruct (fresh_spec _ _ _ _ (slots_sorted en) BF) as (F1 & _).
+  assert (K : forall x, In x (pub_occ en) -> get (inv f2o) x <> None).
+  { intros x Hx. apply slots_spec in Hx. destruct (F1 x Hx) as (y & -> & _). discriminate. }
+  pose proof (asf_ren (inv f2o) en c2 K) as AR. rewrite ASF in AR. injection AR as Esyn.
+  assert (Psyn : forall y, In y (pub_occ synf) -> y mod 4 = 1).
+  { intros y Hy. rewrite Esyn in Hy. apply pub_occ_ren_sub in Hy; [|reflexivity]. destruct Hy as (x & Hx & ->).
+    cbv beta. apply slots_spec in Hx. destruct (F1 x Hx) as (u & -> & _ & Mu). rewrite Mu. apply M. }
+  pose proof (alloc_eclass_exact _ _ _ _ _ H3) as (Hi & U & C & _ & _ & Ct).
+  set (s2 := set_ctr (set_ctr s c2) c2) in *.
+  assert (M3 : mod4_ok s3).
+  { destruct M2 as [A B Cn D]. constructor.
+    - rewrite Ct. exact A.
+    - intros j x Hx. unfold SS in Hx. destruct (get_class s3 j) as [cj|] eqn:Hcj; [|contradiction].
+      apply (get_class_ext_inv s2 s3 _ C) in Hcj. destruct Hcj as [Hcj|[_ ->]].
+      + apply (B j). unfold SS. rewrite Hcj. exact Hx.
+      + cbn [c_syn] in Hx. apply Psyn. apply slots_spec. exact Hx.
+    - intros j cj e Hcj He. apply (get_class_ext_inv s2 s3 _ C) in Hcj. destruct Hcj as [Hcj|[_ ->]]; [eapply Cn; eauto|].
+      cbn [c_nodes] in He. contradiction.
+    - intros j e He. rewrite U in He. apply uentry_app_inv in He. destruct He as [He|[_ ->]]; [eapply D; eauto|].
+      cbn [am]. apply k4_identity. intros x Hx. apply Psyn. apply slots_spec. exact Hx. }
+  assert (Q : Q4 (sh, (bij, i))).
+  { split; cbn [fst snd].
+    - intros y Hy. apply (shape_all_occ_mod4 _ _ _ Ht). apply binders_all_occ. exact Hy.
+    - intros k v G. apply Psyn. apply (proj2 (proj2 (shape_bij_props _ _ _ Ht))). eauto. }
+  pose proof (p4_raw_add _ _ _ _ Q _ _ _ H4 M3) as M4.
+  exact (p4_pending_insert _ _ _ _ _ H5 M4).
+Qed.
+
+(* new_walk t s s5: s5 is the state right before the rebuild performed by the insertion of the weak
+   shape t (lookup-miss branch of add_internal) in the state s *)
+Definition new_walk (t : node * slotmap) (s s5 : egraph) : Prop :=
+  exists en1 c1 en2 en3 s3 f2o c2 synf i s3a sh bij s4,
+    refresh_private (fst t) (ectr s) = (Ok en1, c1) /\ apply_slotmap false (snd t) en1 = Ok en2 /\
+    synify_enode en2 (set_ctr s c1) = Ok (en3, s3) /\
+    bijection_from_fresh_to (slots en3) (ectr s3) = (f2o, c2) /\
+    apply_slotmap_fresh false (inv f2o) en3 c2 = (synf, c2) /\
+    alloc_eclass (values (inv f2o)) synf (set_ctr (set_ctr s3 c2) c2) = Ok (i, s3a) /\
+    wshape synf = Ok (sh, bij) /\ raw_add_to_class i (sh, bij) i s3a = Ok (tt, s4) /\
+    pending_insert sh true s4 = Ok (tt, s5).
+
 Section AddNew.
-  (* ASSUMED (proved elsewhere): rebuild keeps the invariant *)
-  Hypothesis H_rebuild : forall E fuel s x s', inv3 s -> syn_wf s -> Sound E s ->
-    rebuild fuel s = Ok (x, s') -> Sound E s'.
+  (* XP: further run invariants needed (and kept) by rebuild; instance: fun _ => True *)
+  Variable XP : egraph -> Prop.
+  (* rebuild keeps the invariant (SoundRebuild.Sound_rebuild) *)
+  Hypothesis H_rebuild : forall E fuel s x s', inv3 s -> syn_wf s -> mod4_ok s -> XP s -> Sound E s ->
+    rebuild fuel s = Ok (x, s') -> Sound E s' /\ XP s'.
   (* the terms of a node are invariant under alpha-renaming and transported by a renaming of the
      free slots: NodeT_equiv of SoundNode.v *)
   Let NL_NodeT_equiv := NodeT_equiv.
@@ -526,8 +595,8 @@ Section AddNew.
   Qed.
 
   (* the whole walk, with the facts about the state s3a right after the allocation *)
-  Lemma add_new_main : forall E t s a s', inv3 s -> syn_wf s -> Sound E s ->
-    kids_exist s -> ectr s mod 4 = 1 ->
+  Lemma add_new_main : forall E t s a s', inv3 s -> syn_wf s -> mod4_ok s -> Sound E s ->
+    kids_exist s -> ectr s mod 4 = 1 -> (forall s5, new_walk t s s5 -> XP s5) ->
     lookup_internal s t = Ok None -> add_internal t s = Ok (a, s') ->
     exists en1 c1 en2 en3 s3 f2o c2 synf s3a cn,
       refresh_private (fst t) (ectr s) = (Ok en1, c1) /\ ectr s <= c1 /\
@@ -538,9 +607,9 @@ Section AddNew.
       classes s3a = classes s ++ [cn] /\ c_syn cn = synf /\ ext0 (set_ctr (set_ctr s3 c2) c2) s3a /\
       get_class s3a (N.of_nat (lc s3)) = Ok cn /\ inv3 s3a /\ syn_wf s3a /\ Sound E s3a /\
       ext s3a s' /\ inv3 s' /\ Sound E s' /\
-      semify_app_id s' {| aid := N.of_nat (lc s3); am := f2o |} = Ok a.
+      semify_app_id s' {| aid := N.of_nat (lc s3); am := f2o |} = Ok a /\ XP s'.
   Proof.
-    intros E t s a s' I3 W S K Cm Hlk H.
+    intros E t s a s' I3 W M4s S K Cm HXP Hlk H.
     destruct (add_internal_walk _ _ _ _ I3 Hlk H) as (en1 & c1 & en2 & en3 & s3 & syn & RP & H2 & H3 & H4 & Sm & I1 & E01 & I3' & E13 & Hb).
     cbv zeta in *.
     destruct (mk_singleton_walk _ _ _ _ I3' Hb H4) as (f2o & c2 & synf & s3a & sh & bij & s4 & s5 & BF & ASF & AL & Hsh & RA & PI & RB & Ea & I2 & I3a & E23 & I4 & E34 & I5 & E45 & I6 & E56).
@@ -584,21 +653,28 @@ Section AddNew.
       intros x Hx. cbn [c_syn cn] in Hx. destruct (Pb x Hx) as [_ Mx]. rewrite Mx, Cm3. discriminate. }
     assert (S5 : Sound E s5) by (inversion PI; apply Sound_set_pending; exact S4).
     pose proof (syn_wf_ext _ _ (ext_trans _ _ _ E34 E45) W3a) as W5.
-    pose proof (H_rebuild E _ _ _ _ I5 W5 S5 RB) as S6.
+    assert (M5 : mod4_ok s5).
+    { pose proof (m4_refresh_ctr _ _ _ _ M4s RP) as Ma.
+      pose proof (p4_synify_enode _ _ _ _ H3 Ma) as Mb.
+      exact (m4_singleton_pre en3 s3 f2o c2 synf _ s3a sh bij s4 s5 Mb BF ASF AL Hsh RA PI). }
+    assert (X5 : XP s5).
+    { apply HXP. exists en1, c1, en2, en3, s3, f2o, c2, synf, (N.of_nat (lc s3)), s3a, sh, bij, s4.
+      repeat (split; [assumption|]). assumption. }
+    destruct (H_rebuild E _ _ _ _ I5 W5 M5 X5 S5 RB) as [S6 X6].
     exists en1, c1, en2, en3, s3, f2o, c2, synf, s3a, cn. subst syn.
     split; [exact RP|]. split; [apply ctr_step_le; exact St1|]. split; [exact H2|]. split; [exact H3|]. split; [exact Hb|].
     split; [exact BF|]. split; [exact ASF|]. split; [rewrite <- C2; exact C|]. split; [reflexivity|]. split; [exact E23|].
     split; [exact Hnew|]. split; [exact I3a|]. split; [exact W3a|]. split; [exact S3a|].
-    split; [exact (ext_trans _ _ _ E34 (ext_trans _ _ _ E45 E56))|]. split; [exact I6|]. split; [exact S6|]. exact Sm.
+    split; [exact (ext_trans _ _ _ E34 (ext_trans _ _ _ E45 E56))|]. split; [exact I6|]. split; [exact S6|]. split; [exact Sm|exact X6].
   Qed.
 
-  Theorem Sound_add_internal_new : forall E t p s a s', inv3 s -> syn_wf s -> Sound E s ->
-    kids_exist s -> ectr s mod 4 = 1 ->
-    wshape p = Ok t -> lookup_internal s t = Ok None -> add_internal t s = Ok (a, s') -> Sound E s'.
+  Theorem Sound_add_internal_new : forall E t p s a s', inv3 s -> syn_wf s -> mod4_ok s -> Sound E s ->
+    kids_exist s -> ectr s mod 4 = 1 -> (forall s5, new_walk t s s5 -> XP s5) ->
+    wshape p = Ok t -> lookup_internal s t = Ok None -> add_internal t s = Ok (a, s') -> Sound E s' /\ XP s'.
   Proof.
-    intros E t p s a s' I3 W S K Cm _ Hlk H.
-    destruct (add_new_main E t s a s' I3 W S K Cm Hlk H) as (en1 & c1 & en2 & en3 & s3 & f2o & c2 & synf & s3a & cn & T).
-    destruct T as (_ & _ & _ & _ & _ & _ & _ & _ & _ & _ & _ & _ & _ & _ & _ & _ & S6 & _). exact S6.
+    intros E t p s a s' I3 W M4s S K Cm HXP _ Hlk H.
+    destruct (add_new_main E t s a s' I3 W M4s S K Cm HXP Hlk H) as (en1 & c1 & en2 & en3 & s3 & f2o & c2 & synf & s3a & cn & T).
+    destruct T as (_ & _ & _ & _ & _ & _ & _ & _ & _ & _ & _ & _ & _ & _ & _ & _ & S6 & _ & X6). split; [exact S6|exact X6].
   Qed.
 End AddNew.
 
@@ -992,19 +1068,20 @@ Proof.
 Qed.
 
 Section AddNewHandle.
-  Hypothesis H_rebuild : forall E fuel s x s', inv3 s -> syn_wf s -> Sound E s ->
-    rebuild fuel s = Ok (x, s') -> Sound E s'.
+  Variable XP : egraph -> Prop.
+  Hypothesis H_rebuild : forall E fuel s x s', inv3 s -> syn_wf s -> mod4_ok s -> XP s -> Sound E s ->
+    rebuild fuel s = Ok (x, s') -> Sound E s' /\ XP s'.
 
-  Theorem nsound_add_internal_new : forall E t p s a s', inv3 s -> syn_wf s -> Sound E s ->
-    kids_exist s -> ectr s mod 4 = 1 ->
+  Theorem nsound_add_internal_new : forall E t p s a s', inv3 s -> syn_wf s -> mod4_ok s -> Sound E s ->
+    kids_exist s -> ectr s mod 4 = 1 -> (forall s5, new_walk t s s5 -> XP s5) ->
     wshape p = Ok t -> lookup_internal s t = Ok None -> add_internal t s = Ok (a, s') ->
     Forall (covers s) (app_occ p) -> Forall (fun x => wf (am x)) (app_occ p) ->
     (forall x, In x (pub_occ p) -> x mod 4 <> 1 \/ x < ectr s) ->
     nsound E s' a p.
   Proof.
-    intros E [sh_t bij_t] p s a s' I3 W S K Cm Hw Hlk H Cv Wfp Bp.
-    destruct (add_new_main H_rebuild E _ s a s' I3 W S K Cm Hlk H)
-      as (en1 & c1 & en2 & en3 & s3 & f2o & c2 & synf & z & cn & RP & Le1 & H2 & H3 & Hb & BF & ASF & Cz & Sy & E2z & Hnew & Iz & Wz & Sz & Ezs & I6 & S6 & Sm).
+    intros E [sh_t bij_t] p s a s' I3 W M4s S K Cm HXP Hw Hlk H Cv Wfp Bp.
+    destruct (add_new_main XP H_rebuild E _ s a s' I3 W M4s S K Cm HXP Hlk H)
+      as (en1 & c1 & en2 & en3 & s3 & f2o & c2 & synf & z & cn & RP & Le1 & H2 & H3 & Hb & BF & ASF & Cz & Sy & E2z & Hnew & Iz & Wz & Sz & Ezs & I6 & S6 & Sm & _).
     cbn [fst snd] in RP, H2.
     set (i := N.of_nat (lc s3)) in *.
     pose proof (proj1 (proj1 Iz)) as EIz.
